@@ -279,24 +279,35 @@ func runHelloServer(sc scenario, res *result) {
 	settle := func() { w.s.WaitSettled(stepTimeout) }
 	settle()
 	ended := false
+	nws := 0
 	for _, op := range sc.Ops {
 		switch op.Op {
 		case "cli_send":
-			var b []byte
-			switch op.Kind {
-			case "start":
-				b = mustCBOR(nil)
-			case "ws":
-				b = mustCBOR(atp.RuntimeMessage{MessageID: atp.MessageTypeWorkStart, RunID: "x",
-					MessageData: atp.WorkStartMessage{StepID: "step", Config: map[string]any{"name": "x", "beh": "ok"}}})
-			case "junk":
-				b = junkBytes
-			case "part":
-				x := mustCBOR(atp.RuntimeMessage{MessageID: atp.MessageTypeWorkStart, RunID: "x",
-					MessageData: atp.WorkStartMessage{StepID: "step", Config: map[string]any{"name": "x", "beh": "ok"}}})
-				b = x[:len(x)/2]
+			// every work-start has a run ID of its own: x1, x2, ... in the order of sending
+			kinds := op.Kinds
+			if len(kinds) == 0 {
+				kinds = []string{op.Kind}
 			}
-			w.s.Emit(me, "e.send", map[string]any{"kind": op.Kind})
+			var b []byte
+			for _, k := range kinds {
+				run := ""
+				switch k {
+				case "start":
+					b = append(b, mustCBOR(nil)...)
+				case "ws":
+					nws++
+					run = fmt.Sprintf("x%d", nws)
+					b = append(b, mustCBOR(atp.RuntimeMessage{MessageID: atp.MessageTypeWorkStart, RunID: run,
+						MessageData: atp.WorkStartMessage{StepID: "step", Config: map[string]any{"name": run, "beh": "ok"}}})...)
+				case "junk":
+					b = append(b, junkBytes...)
+				case "part":
+					x := mustCBOR(atp.RuntimeMessage{MessageID: atp.MessageTypeWorkStart, RunID: "xp",
+						MessageData: atp.WorkStartMessage{StepID: "step", Config: map[string]any{"name": "xp", "beh": "ok"}}})
+					b = append(b, x[:len(x)/2]...)
+				}
+				w.s.Emit(me, "e.send", map[string]any{"kind": k, "run": run})
+			}
 			_, _ = w.c2s.Write(b)
 		case "cli_end":
 			if !ended {
@@ -323,15 +334,32 @@ func runHelloServer(sc scenario, res *result) {
 	}
 	hdec := cbor.NewDecoder(sched.ReadEnd{P: w.s2c})
 	gotHello := make(chan bool, 1)
+	after := make(chan string, 64)
 	go func() {
 		var h atp.HelloMessage
 		if hdec.Decode(&h) == nil && h.Version == atp.ProtocolVersion && h.Schema != nil {
 			gotHello <- true
 			for {
-				var m any
+				var m atp.DecodedRuntimeMessage
 				if hdec.Decode(&m) != nil {
+					close(after)
 					return
 				}
+				kind := fmt.Sprintf("id%d", m.MessageID)
+				switch m.MessageID {
+				case atp.MessageTypeWorkDone:
+					kind = "wd"
+				case atp.MessageTypeError:
+					var e atp.ErrorMessage
+					_ = cbor.Unmarshal(m.RawMessageData, &e)
+					kind = "err"
+					if e.ServerFatal {
+						kind = "err_server"
+					} else if e.StepFatal {
+						kind = "err_step"
+					}
+				}
+				after <- kind + ":" + m.RunID
 			}
 		}
 		gotHello <- false
@@ -350,6 +378,20 @@ func runHelloServer(sc scenario, res *result) {
 	case ok := <-gotHello:
 		if ok {
 			res.Received = append(res.Received, "hello")
+			// the server has returned and closed its output: what it wrote behind the hello
+			tmo := time.After(2 * time.Second)
+		drain:
+			for {
+				select {
+				case m, more := <-after:
+					if !more {
+						break drain
+					}
+					res.Received = append(res.Received, m)
+				case <-tmo:
+					break drain
+				}
+			}
 		}
 	case <-time.After(2 * time.Second):
 	}
